@@ -53,9 +53,12 @@ class Run:
         self.canaries = []         # [(name, killed, detail)]
         self.dropped = []
         self.solver_s = {}
+        self.known_demo = []
 
     # ------------------------------------------------------------------ verus
     def relevant(self, unit, fname):
+        if config.PROPS.get(self.prop, {}).get("all_fns"):
+            return True
         spec = unit.fns.get(fname)
         if spec is None or not spec.props:
             return True
@@ -174,6 +177,25 @@ class Run:
                     except Exception as e:  # never let the search mask the verdict
                         self.notes.append("witness search failed for %s: %r" % (o.name, e))
         os.makedirs(REPLAYS, exist_ok=True)
+        # findings that are carved out of a contract by a precondition (or are outside any obligation):
+        # their concrete input is replayed against the real library on every run
+        demo_ids = [k["id"] for k in known.get("findings", []) if self.prop in k.get("properties", [k.get("property")]) and k.get("demo")]
+        if demo_ids:
+            from . import witness
+            try:
+                demos = witness.run_finding_demos(demo_ids, self.repo)
+            except Exception as e:
+                demos = {i: (None, "demo error %r" % (e,)) for i in demo_ids}
+            for k in known.get("findings", []):
+                if k.get("id") in demos:
+                    rep, text = demos[k["id"]]
+                    if rep:
+                        print("KNOWN-FINDING: property=%s %s: %s [%s]" % (self.prop, k["id"], k.get("what", ""), text))
+                        self.known_demo.append({"id": k["id"], "what": k.get("what"), "reproduced": text})
+                    elif rep is False:
+                        print("NOTE known finding %s no longer reproduces on this tree" % k["id"])
+                    else:
+                        print("NOTE known finding %s: %s" % (k["id"], text))
         for o, k in known_hits:
             print("KNOWN-FINDING: property=%s %s (%s)" % (self.prop, k.get("what", ""), o.name))
         for o in violations:
@@ -206,7 +228,7 @@ class Run:
             self.undecided.append(("*", "no-obligations-generated"))
         rc = 1 if violations else (2 if self.undecided else 0)
         print("%s: %d obligations, %d discharged, %d bounded stand-ins, %d known findings, %d violations, %d undecided (%.1fs)" % (
-            self.prop, n_obl, n_dis, n_bounded, len(known_hits), len(violations), len(self.undecided), self.wall_s))
+            self.prop, n_obl, n_dis, n_bounded, len(known_hits) + len(self.known_demo), len(violations), len(self.undecided), self.wall_s))
         if write_evidence:
             self.write_evidence(n_obl, n_dis, known_hits, violations)
         return rc
@@ -241,7 +263,7 @@ class Run:
             "functions_under_contract": sorted(set(self.functions)),
             "obligation_list": [{"name": o.name, "backend": o.backend, "status": o.status, "time_s": round(o.time_s, 3), "bounded": o.bounded} for o in obls],
             "bounded": [{"name": o.name, "bound": o.bounded, "status": o.status} for o in obls if o.bounded],
-            "known_findings": [{"obligation": o.name, "what": k.get("what")} for o, k in known_hits],
+            "known_findings": [{"obligation": o.name, "what": k.get("what")} for o, k in known_hits] + self.known_demo,
             "solver_s": self.solver_s,
             "lost_anchors": self.lost,
             "undecided": [{"obligation": n, "reason": r} for n, r in self.undecided],
